@@ -72,13 +72,17 @@ def _mk_policy(sx, sh, pi, via):
         fp = FunctionalPolicy(lambda s: DictDistribution({AL[a]: p for a, p in pi[L.index(s)].items()
                                                           if is_sym(p) or p != 0 or a == sh.avail[L.index(s)][0]}))
         return fp.to_tabular(tuple(L), tuple(AL))
-    data = [[pi[s].get(a, 0) for a in range(sh.A)] for s in range(sh.S)]
+    so, ao = list(range(sh.S)), list(range(sh.A))
+    if via == 'permuted':
+        # the policy table lists the same states and actions in ANOTHER order than the model does (reversed)
+        so, ao = so[::-1], ao[::-1]
+    data = [[pi[s].get(a, 0) for a in ao] for s in so]
     if sx.sym:
         from symx.symnp import SymArray
         data = SymArray(data)
     else:
         data = rnp.array(data, dtype=float)
-    return TabularPolicy.from_state_action_lists(state_list=tuple(L), action_list=tuple(AL), data=data)
+    return TabularPolicy.from_state_action_lists(state_list=tuple(L[s] for s in so), action_list=tuple(AL[a] for a in ao), data=data)
 
 
 def _expectation_oracle(sx, sh, rew, absorbing, pi, g):
@@ -221,7 +225,7 @@ def _closed_classes(sh, pi, absorbing):
     return classes, R
 
 
-def eval_undiscounted(sx, shape, combo, calls=1):
+def eval_undiscounted(sx, shape, combo, calls=1, via='table'):
     """calls=2: the same policy object is evaluated twice on the same MDP object; the second answer is checked"""
     sh = UNDISC[shape]
     rew = sym_rewards(sx, sh, -1, 0)
@@ -229,7 +233,7 @@ def eval_undiscounted(sx, shape, combo, calls=1):
     with facade(sx):
         mdp = build_mdp(sx, sh, rew)
         pi = _policy_matrix(sx, sh, combo)
-        pol = _mk_policy(sx, sh, pi, 'table')
+        pol = _mk_policy(sx, sh, pi, via)
         with sx.must_not_raise('evaluate'):
             for _ in range(calls):
                 res = pol.evaluate_on(mdp)
@@ -329,6 +333,7 @@ def jobs(tier):
             for combo in policies(sh, tier):
                 yield ('eval_discounted', dict(shape=i, gamma=g, combo=list(combo)), o)
         yield ('eval_discounted', dict(shape=i, gamma='1/2', combo=list(policies(sh, 'quick')[-1]), via='functional'), o)
+        yield ('eval_discounted', dict(shape=i, gamma='1/2', combo=list(policies(sh, 'quick')[-1]), via='permuted'), o)
     # discount rates close to (but below) 1 are still discounted
     for i in [1, 2, 4]:
         for combo in policies(SHAPES[i], 'quick')[:3]:
@@ -341,6 +346,7 @@ def jobs(tier):
             yield ('eval_undiscounted', dict(shape=i, combo=list(combo)), o)
         for combo in policies(sh, 'quick')[:(2 if quick else 6)]:
             yield ('eval_undiscounted', dict(shape=i, combo=list(combo), calls=2), o)
+        yield ('eval_undiscounted', dict(shape=i, combo=list(policies(sh, 'quick')[-1]), via='permuted'), o)
     for i in ([1, 3] if quick else range(len(SHAPES))):
         yield ('eval_discounted', dict(shape=i, gamma='1/2', combo=list(policies(SHAPES[i], 'quick')[-1]), calls=2), o)
     yield ('eval_undiscounted_symbolic', dict(), dict(o, timeout_ms=120000))
